@@ -35,7 +35,7 @@ func init() {
 		sc.Assumptions = simAssumptions
 		registry[sc.Prop] = func(run *harness.Run) int { return sim.RunSimCheck(run, sc) }
 	}
-	reg(&sim.SimCheck{Prop: "C01", Workload: "c01", Profile: withOpts(advProfile(merge(noBare, map[string]int{"equivocate": 12, "support": 25, "forgedNV": 12, "twistedNV": 12, "reblock": 25, "vcGames": 16}), 500, 2), func(p *sim.Profile) { p.CommErrors = true }),
+	reg(&sim.SimCheck{Prop: "C01", Workload: "c01", Profile: withOpts(advProfile(merge(noBare, map[string]int{"equivocate": 12, "support": 25, "forgedNV": 12, "twistedNV": 12, "reblock": 25, "vcGames": 16}), 500, 2), func(p *sim.Profile) { p.CommErrors, p.CommitFailures = true, true }),
 		QuickCases: 10000, ThoroughCases: 150000,
 		NonTrivial: func(r *sim.Result) bool { return r.Forky && r.Commits > 0 },
 		Rule:       "random adversarial case (committee, weights, leader order, Byzantine set <= f, schedule, attack strategies) from (VERIF_SEED, workload, index); non-trivial = at least two different proposals were on the wire at one height and some correct node committed; distinct = distinct schedule hash",
@@ -118,7 +118,7 @@ func init() {
 		Rule:       "adversarial cases with conflicting proposals, duplicated and re-ordered deliveries; every message a correct node sends is judged (single-valued signatures per (h,v), phase order, view order); non-trivial = conflicting proposals were on the wire and a COMMIT of a correct node was judged",
 		Floors:     map[string]int{"C10 commits judged": 2000, "C10 prepares judged": 4000, "C10 view changes judged": 4000},
 		Judged:     []string{"C10 proposals judged", "C10 prepares judged", "C10 commits judged", "C10 view changes judged", "C10 commits by commit quorum"}})
-	reg(&sim.SimCheck{Prop: "C11", Workload: "c11", Profile: withOpts(advProfile(merge(map[string]int{"barePP": 5}, map[string]int{"vcGames": 25, "outsider": 12, "support": 20, "mutate": 20, "hugeView": 6}), 600, 2), func(p *sim.Profile) { p.CommitteeErrors = true }),
+	reg(&sim.SimCheck{Prop: "C11", Workload: "c11", Profile: withOpts(advProfile(merge(map[string]int{"barePP": 5}, map[string]int{"vcGames": 25, "outsider": 12, "support": 20, "mutate": 20, "hugeView": 6}), 600, 2), func(p *sim.Profile) { p.CommitteeErrors, p.CommitFailures = true, true }),
 		QuickCases: 5000, ThoroughCases: 100000,
 		NonTrivial: func(r *sim.Result) bool {
 			return r.Stats["C11 judged NEW_VIEW"] > 0 && r.Stats["delivered adversarial"] > 0
@@ -252,7 +252,7 @@ func init() {
 			ev["rt_commitsync"] = cev
 			return append(append(fs, rfs...), cfs...), ev, append(append(inc, rinc...), cinc...)
 		}})
-	reg(&sim.SimCheck{Prop: "C18", Workload: "c18", Profile: advProfile(merge(noBare, map[string]int{"hugeView": 10, "vcGames": 15}), 500, 2),
+	reg(&sim.SimCheck{Prop: "C18", Workload: "c18", Profile: withOpts(advProfile(merge(noBare, map[string]int{"hugeView": 10, "vcGames": 15}), 500, 2), func(p *sim.Profile) { p.CommErrors = true }),
 		QuickCases: 1500, ThoroughCases: 40000,
 		NonTrivial: func(r *sim.Result) bool { return r.Stats["C18 view change destinations judged"] > 3 },
 		Rule:       "(a) the real leader function tabulated next to committee[view mod n] for n=4..64 and views 0..4n, 2^k, 2^k+-1, +-70 around 2^31, 2^32, 2^63, 2^64-1 and random 64-bit views, plus 'each member leads once in n consecutive views'; (b) behaviour in sim executions: every VIEW_CHANGE a correct node sends must go to the member at position view mod n and the member at that position must collect instead of sending, NEW_VIEWs only from that member; non-trivial case = more than 3 VIEW_CHANGE destinations judged",
